@@ -268,6 +268,9 @@ def arr_reshape(eng, st, args, kwargs, line):
     dims = args[1:]
     if len(dims) == 1 and isinstance(dims[0], (VTuple, VList)):
         dims = dims[0].items
+    if isinstance(a, VArr2) and smt.conc_int(a.s1) == 1 and eng.entails(st, a.s0 == a.n1):
+        # C-contiguous 2-D view: reshape acts on its row-major flattening (no copy)
+        a = VArr(a.obj, a.off, z3.IntVal(1), smt.som(a.n0 * a.n1))
     if not isinstance(a, VArr) or len(dims) != 2 or smt.conc_int(a.stride) != 1:
         raise OutOfSubset(f"line {line}: reshape form")
     n0, n1 = (eng.to_int(d, line) for d in dims)
